@@ -5,6 +5,8 @@ import GoagModel.Serve
 import GoagModel.Ref
 import GoagModel.Dir
 import GoagModel.JsonModel
+import GoagModel.Naming
+import GoagModel.Resp
 /-
   Line-protocol driver: one tab-separated request per line on stdin, one answer line on
   stdout.  The first field selects the model function.  Imports only executable model
@@ -25,6 +27,7 @@ structure State where
   leaf : Serve.LeafTable := []
   schemas : Option Lean.Json := none
   jleaf : JsonM.LeafDec := []
+  docR : Option Resp.DocR := none
 
 def unhexD (h : String) : String := (fromHex h).getD "?bad-hex?"
 
@@ -201,6 +204,46 @@ def handle (st : State) (fields : List String) : IO (State × String) := do
       match res with
       | .ok r => pure (st, s!"{id}\t{r}")
       | .error e => pure (st, s!"{id}\tunmodelled:{e}")
+  | ["names", id, h] =>
+    match fromHex h with
+    | none => pure (st, s!"{id}\tbad-input")
+    | some s =>
+      if !Naming.asciiName s.toList then pure (st, s!"{id}\tunmodelled") else
+      let pub := Naming.publicFieldName s.toList
+      pure (st, s!"{id}\t{hexOfStr pub}\t{hexOfStr (Naming.title s.toList)}\t{hexOfStr (Naming.privateFieldName pub)}")
+  | ["respspec", pkg, path] =>
+    let txt ← IO.FS.readFile path
+    match Lean.Json.parse txt with
+    | .error e => pure ({ st with docR := none }, s!"{pkg}\tunmodelled:json {e}")
+    | .ok j =>
+      let d := Resp.readDocR j
+      match Resp.rejects d with
+      | some why => pure ({ st with docR := some d }, s!"{pkg}\tresp-reject:{why}")
+      | none => pure ({ st with docR := some d }, s!"{pkg}\tresp-ok")
+  | ["respinfo", id, method, pathHex] =>
+    match st.docR with
+    | none => pure (st, s!"{id}\tno-model")
+    | some d =>
+      match d.ops.find? (fun o => o.method == method && o.path == unhexD pathHex) with
+      | none => pure (st, s!"{id}\tno-such-op")
+      | some o =>
+        let impl := Resp.sortStrings (Resp.implementers d o)
+        let docu := Resp.sortStrings (Resp.documentedTypes d o)
+        let wr := Resp.sortStrings ((Resp.expectedWritten d o).map (fun w =>
+          s!"{w.ctor}:{w.status},{w.ct},{"+".intercalate w.headers},{w.body}"))
+        pure (st, s!"{id}\tiface={Resp.operationName o}Response\timpl={"+".intercalate impl}\tR:documented={"+".intercalate docu}\twritten={";".intercalate wr}")
+  | ["clientstatus", id, method, pathHex, status] =>
+    match st.docR with
+    | none => pure (st, s!"{id}\tno-model")
+    | some d =>
+      match d.ops.find? (fun o => o.method == method && o.path == unhexD pathHex) with
+      | none => pure (st, s!"{id}\tno-such-op")
+      | some o =>
+        let arm := match Resp.clientArm (Resp.numberedOf o) (Resp.hasDefault o) status.toNat! with
+          | .documented n => s!"documented({n})"
+          | .default => "default"
+          | .notImplemented => "not-implemented"
+        pure (st, s!"{id}\t{arm}")
   | ["dirrun", id, init, hist] => pure (st, s!"{id}\t{dirRun init hist}")
   | ["leaf", tag, lexHex, res] =>
     pure ({ st with leaf := ((tag, unhexD lexHex), if res == "none" then none else some res) :: st.leaf }, "leaf-ok")
